@@ -14,7 +14,8 @@ of every result of
      operations: every intermediate result is judged, and the dense meaning of every step is
      compared with NumPy applied to the same program,
  (c) COO.__init__ itself on raw (also promise-violating) inputs against the model `coo_ctor`,
- (d) GCXS @ GCXS against the kernel model `dot_csr_csr` (the producer of former finding D8).
+ (d) GCXS @ GCXS against the kernel model `dot_csr_csr` (the producer of former finding D8) and
+     tensordot(csc, ndarray, return_type=GCXS) against `dot_csc_ndarray` (repaired by fix 03cd171),
 
 The suite's `is_canonical` / `assert_nnz` are not used."""
 import json
@@ -869,6 +870,19 @@ def gen_csr(rng, tier):
     return cases
 
 
+def gen_cscnd(rng, tier):
+    """(d'): tensordot(GCXS csc, ndarray, return_type=GCXS) against the kernel model dot_csc_ndarray"""
+    n = 100 if tier == "quick" else 1200
+    cases = []
+    for _ in range(n):
+        r, m, k = rng.choice([1, 2, 3, 4]), rng.choice([1, 2, 3, 5]), rng.choice([1, 2, 3])
+        dens = rng.choice([0.3, 0.6, 1.0])
+        A = [[rng.choice([1, 2, -1, -2]) if rng.random() < dens else 0 for _ in range(m)] for _ in range(r)]
+        B = [[rng.choice([1, -1, 2, 0, 0]) for _ in range(k)] for _ in range(m)]
+        cases.append({"kind": "cscnd", "A": A, "B": B})
+    return cases
+
+
 def gen_scipy(rng, tier):
     """(e): conversion of SciPy csr/csc matrices (valid for SciPy: monotone indptr, in-range indices; rows sorted or not)"""
     n = 60 if tier == "quick" else 600
@@ -922,6 +936,13 @@ def impl_run(case):
         except Exception as ex:  # noqa: BLE001
             r = ex
         return {"r": vlib.plain(r), "ref": vlib.plain(np.asarray(m.toarray()))}
+    if kind == "cscnd":
+        a = sparse.GCXS.from_numpy(np.array(case["A"], dtype=np.int64), compressed_axes=(1,))
+        try:
+            r = sparse.tensordot(a, np.array(case["B"], dtype=np.int64), axes=1, return_type=sparse.GCXS)
+        except Exception as ex:  # noqa: BLE001
+            r = ex
+        return {"a": vlib.plain(a), "r": vlib.plain(r)}
     if kind == "csr":
         a = sparse.GCXS.from_numpy(np.array(case["A"], dtype=np.int64), compressed_axes=(0,))
         b = sparse.GCXS.from_numpy(np.array(case["B"], dtype=np.int64), compressed_axes=(0,))
@@ -975,7 +996,7 @@ CODE_TEXT = {1: "raw result not in canonical/self-consistent form", 5: "GCXS row
 def campaign(build, tier, seed, report, budget=1):
     rng = random.Random(seed)
     cases = (gen_directed(rng, tier) + gen_sweep(rng, tier) + gen_programs(rng, tier) + gen_ctor(rng, tier) + gen_csr(rng, tier)
-             + gen_scipy(rng, tier))
+             + gen_cscnd(rng, tier) + gen_scipy(rng, tier))
     if budget > 1:
         cases += gen_programs(random.Random(seed + 1), tier) + gen_sweep(random.Random(seed + 2), tier)
     import time
@@ -1053,12 +1074,6 @@ def campaign(build, tier, seed, report, budget=1):
             opnd = r["inputs"][st["args"][0][1]] if st["args"][0][0] == "in" else r["results"][st["args"][0][1]]
             if "n" in kinds and "i" in kinds and opnd.get("k") == "gcxs" and len(opnd["shape"]) >= 2:
                 clause = "gcxs_getitem_newaxis_with_int_malformed"
-        if st["op"] in ("tensordot_dense", "rtensordot_dense", "matmul_dense", "rmatmul_dense") and st["p"].get("rt") in ("coo", "gcxs"):
-            opnd = r["inputs"][st["args"][0][1]] if st["args"][0][0] == "in" else r["results"][st["args"][0][1]]
-            csc_path = opnd.get("k") == "gcxs" and len(opnd["shape"]) == 2 and (
-                (st["op"] == "tensordot_dense" and opnd["caxes"] == [1]) or (st["op"] == "rtensordot_dense" and opnd["caxes"] == [0]))
-            if csc_path:
-                clause = "dot_csc_ndarray_sparse_kernel_unsorted_and_miscounted"
         if st["op"] in ("einsum_tr", "einsum_mm") and code in (2, 3):
             clause = "einsum_result_not_pruned"
         viol.append({"property": "C06", "op": st["op"], "kind": "value", "clause": clause, "code": code,
@@ -1106,6 +1121,25 @@ def campaign(build, tier, seed, report, budget=1):
                      "impl": res[kwhere[idx]],
                      "replay_py": f"import numpy as np, sparse; a=sparse.GCXS.from_numpy(np.array({c['A']!r}), compressed_axes=(0,)); "
                                   f"b=sparse.GCXS.from_numpy(np.array({c['B']!r}), compressed_axes=(0,)); r=a@b; print(r.data, r.indices, r.indptr)"})
+    qlits, qwhere = [], []
+    for ci, (c, r) in enumerate(zip(cases, res, strict=True)):
+        if c["kind"] != "cscnd":
+            continue
+        if not r or "a" not in r:
+            tag("cscnd/harness")
+            continue
+        ga = vlib.sarr_lit(r["a"])
+        bcols = [[row[j] for row in c["B"]] for j in range(len(c["B"][0]))]
+        qlits.append(vpair(ga[len("(SGcxs "):-1], vlist(bcols, vlist), vlib.sarr_lit(r["r"])))
+        qwhere.append(ci)
+        tag("cscnd/" + str(r["r"].get("k")))
+    for idx, code in build.judge("c06_cscnd", "From Verif Require Import Py Shape COO GCXS SArr Ctor C06Judge.", "cscnd_case", "judge_cscnd", qlits, chunk=300):
+        c = cases[qwhere[idx]]
+        viol.append({"property": "C06", "op": "tensordot_csc_ndarray_gcxs", "kind": "representation", "clause": None, "code": code,
+                     "what": "tensordot(csc, ndarray, return_type=GCXS) raw arrays differ from the kernel model dot_csc_ndarray + _prune",
+                     "case": c, "impl": res[qwhere[idx]],
+                     "replay_py": f"import numpy as np, sparse; a=sparse.GCXS.from_numpy(np.array({c['A']!r}), compressed_axes=(1,)); "
+                                  f"r=sparse.tensordot(a, np.array({c['B']!r}), axes=1, return_type=sparse.GCXS); print(r.data, r.indices, r.indptr)"})
     # ---------------- the site table, counted inside Coq
     header = ("From Coq Require Import String ZArith List.\nFrom Verif Require Import Ctor S_ctor_sites.\nImport ListNotations.\n"
               "Set Printing Width 100000.\nSet Printing Depth 100000.\n")
@@ -1124,7 +1158,7 @@ def campaign(build, tier, seed, report, budget=1):
         site_info = {"error": str(ex)[-300:]}
     cov = report["coverage"]
     cov["timing_s"] = {"implementation": round(t_impl - t_gen, 1), "coq_judges": round(time.time() - t_impl, 1)}
-    cov["evaluations"] = len(lits) + len(clits) + len(klits)
+    cov["evaluations"] = len(lits) + len(clits) + len(klits) + len(qlits)
     cov["distinct_nontrivial"] = len(distinct) + len({vlib.digest(cases[i]) for i in cwhere}) + len({vlib.digest(cases[i]) for i in kwhere})
     cov["rule"] = ("every step result of (a) one-step programs for each of the %d catalogue operations x operand formats "
                    "(COO / GCXS with random compressed axes / DOK, fills 0/3/-1, zero-length axes in the wild half) and (b) composed "
